@@ -139,6 +139,7 @@ def select_only(vm, n_builders, k, strategy):
 
 
 def create_builder(vm, ledger, account, pay, results, fate):
+    fate = bool(fate)
     out = Output.pay_pubkey_hash(pay, b'\x07' * 20)
     try:
         tx = vm.await_(Transaction.create([], [out], [account], account, False))
@@ -157,7 +158,7 @@ def create_builder(vm, ledger, account, pay, results, fate):
     results.append(('finished', sel))
 
 
-def create_concurrent(vm, n_builders, k, strategy):
+def create_concurrent(vm, n_builders, k, strategy, fates=None):
     """n concurrent Transaction.create calls, each then broadcast or abandoned at an arbitrary later point."""
     VM_REF[0] = vm
     SCHED[0] = Sched(vm)
@@ -167,7 +168,8 @@ def create_concurrent(vm, n_builders, k, strategy):
     account = StubAccount(ledger, utxos)
     results = []
     for b in range(n_builders):
-        SCHED[0].spawn(create_builder, [vm, ledger, account, vm.new_int('pay', 1, 10 ** 9), results, vm.new_bool('broadcast')])
+        fate = vm.new_bool('broadcast') if fates is None else fates[b]
+        SCHED[0].spawn(create_builder, [vm, ledger, account, vm.new_int('pay', 1, 10 ** 9), results, fate])
     try:
         SCHED[0].run_all()
     except InsufficientFundsError:
@@ -223,17 +225,20 @@ def jobs(tier):
                         loop_bound=300, max_depth=60, cost=500, bounds=dict(builders=2, utxos=2, strategy=sname,
                                                                             schedule='every interleaving at db awaits'),
                         must_reach=('ok-2-funded', 'ok-1-funded')))
-    out.append(dict(name='select-3builders-2utxo-default', family='select', fn='select_only', args=(3, 2, None), loop_bound=300,
-                    max_depth=60, cost=5000, bounds=dict(builders=3, utxos=2, strategy='default', schedule='every interleaving')))
-    out.append(dict(name='create-2builders-2utxo-default', family='create', fn='create_concurrent', args=(2, 2, None),
-                    loop_bound=300, max_depth=60, cost=5000,
-                    bounds=dict(builders=2, utxos=2, strategy='default', fates='broadcast or abandon, symbolic',
-                                schedule='every interleaving at db awaits'), must_reach=('ok',)))
     if tier == 'thorough':
-        out.append(dict(name='select-3builders-3utxo-default', family='select', fn='select_only', args=(3, 3, None), loop_bound=300,
-                        max_depth=60, cost=50000, bounds=dict(builders=3, utxos=3, strategy='default')))
-        out.append(dict(name='create-2builders-3utxo-default', family='create', fn='create_concurrent', args=(2, 3, None),
-                        loop_bound=300, max_depth=60, cost=50000, bounds=dict(builders=2, utxos=3, strategy='default')))
+        out.append(dict(name='select-3builders-2utxo-default', family='select', fn='select_only', args=(3, 2, None), loop_bound=300,
+                        max_depth=60, cost=5000, bounds=dict(builders=3, utxos=2, strategy='default', schedule='every interleaving')))
+        for fates in ((False, False), (False, True), (True, False), (True, True)):
+            tag = ''.join('B' if f else 'A' for f in fates)
+            out.append(dict(name=f'create-2builders-2utxo-default-{tag}', family='create', fn='create_concurrent',
+                            args=(2, 2, None, fates), loop_bound=300, max_depth=60, cost=5000,
+                            bounds=dict(builders=2, utxos=2, strategy='default', fates=tag + ' (A abandon, B broadcast)',
+                                        schedule='every interleaving at db awaits'), must_reach=('ok',)))
+    else:
+        out.append(dict(name='create-2builders-1utxo-default', family='create', fn='create_concurrent', args=(2, 1, None),
+                        loop_bound=300, max_depth=60, cost=1000,
+                        bounds=dict(builders=2, utxos=1, strategy='default', fates='broadcast or abandon, symbolic',
+                                    schedule='every interleaving at db awaits'), must_reach=('ok',)))
     return out
 
 
